@@ -725,20 +725,9 @@ class Router:
                         return GNDataConfirm(result_code=ResultCode.UNSPECIFIED)
 
         else:
-            final_packet: bytes = (
-                basic_header.encode_to_bytes()
-                + common_header.encode_to_bytes()
-                + gbc_extended_header.encode()
-                + packet
-            )
-            try:
-                if self.link_layer:
-                    self.link_layer.send(final_packet)
-            except PacketTooLongException:
-                return GNDataConfirm(
-                    result_code=ResultCode.MAXIMUM_LENGTH_EXCEEDED)
-            except SendingException:
-                return GNDataConfirm(result_code=ResultCode.UNSPECIFIED)
+            # step 10: no neighbour and SCF set → the packet belongs in the BC forwarding
+            # packet buffer and the forwarding algorithm (annex D) is not executed now
+            print("GBC: no neighbours and SCF set; BC forwarding buffer not yet implemented")
         return GNDataConfirm(result_code=ResultCode.ACCEPTED)
 
     def gn_data_request_gac(self, request: GNDataRequest) -> GNDataConfirm:
